@@ -857,7 +857,6 @@ type evRun struct {
 // runProgram executes one program (context layers, event fields, level, message, finalizer) on the
 // real code, applies the monitors and emits the correspondence case.
 func (er *evRun) runProgram(g *gen, label string, layers [][]gfield, evF []gfield, lvl zerolog.Level, msg string, fin int) {
-	c := er.c
 	i := er.n
 	er.n++
 	zerolog.DurationFieldUnit = g.unit
@@ -909,6 +908,13 @@ func (er *evRun) runProgram(g *gen, label string, layers [][]gfield, evF []gfiel
 	if label != "" {
 		in["directed"] = label
 	}
+	er.check(g, i, in, w, pre, ctx, ev, ctxF, evF, true)
+}
+
+// check applies the monitors to what one program wrote (pre / ctx / ev: the logged keys and values in the
+// order of the line) and, with shard, emits the correspondence case.
+func (er *evRun) check(g *gen, i int, in map[string]interface{}, w *capture, pre, ctx, ev []kv, ctxF, evF []gfield, shard bool) {
+	c := er.c
 	if len(w.bufs) != 1 {
 		c.Violate(Violation{Key: "cbor-event-writes", Monitor: "one-write", Desc: fmt.Sprintf("event produced %d writes", len(w.bufs)), Case: in})
 		return
@@ -949,7 +955,9 @@ func (er *evRun) runProgram(g *gen, label string, layers [][]gfield, evF []gfiel
 		}
 	}
 	term := fmt.Sprintf("((%s, (%s, %s, %s)), %s)", g.tb.coq(), kvsCoq(pre), kvsCoq(ctx), kvsCoq(ev), cbs(got))
-	c.AddCase(term, map[string]interface{}{"program": in, "got": fmt.Sprintf("%x", truncB(got, 4096))})
+	if shard {
+		c.AddCase(term, map[string]interface{}{"program": in, "got": fmt.Sprintf("%x", truncB(got, 4096))})
+	}
 	c.Count(term, len(all) > 1)
 	c.Hist("event_fields", fmt.Sprintf("%d", len(all)/4*4))
 	c.Hist("event_bytes", lenBucket(len(got)))
@@ -1007,6 +1015,8 @@ func runEvents(c *Ctx) {
 		}
 		c.Res.ExtraCoverage["directed_error_marshal_programs"] = directed
 	}
+	// ---- directed: every entry point that ends in a message (entry.go)
+	er.runMessageEntryPoints()
 
 	for i := 0; i < nprog; i++ {
 		r := c.R.Fork()
